@@ -79,4 +79,9 @@ RefPres(R, p, maxid) ==
 RefAddNode(R, n, a) == [R EXCEPT !.nodes = @ \cup {n},
                                  !.attr = IF a = 0 THEN @ ELSE (n :> a) @@ @]
 AttrOf(R, n) == IF n \in DOMAIN R.attr THEN R.attr[n] ELSE 0
+\* update_node_attr / update_node_attr_from / set_node_attributes on nodes of the graph: the value a
+\* (0 = the attribute is removed, as update_node_attr replaces the whole dictionary)
+RefSetAttr(R, ns, a) ==
+  LET hit == ns \cap (R.nodes \cup R.maybe) IN
+  [R EXCEPT !.attr = [n \in DOMAIN @ \cup hit |-> IF n \in hit THEN a ELSE @[n]]]
 =============================================================================
